@@ -211,6 +211,25 @@ CLAIMED.update({
 })
 
 CLAIMED.update({
+ "C07": dict(category="other",
+    text="Client side of the opening handshake (WebSocketClientProtocol.processHandshake, whole function): for every octet "
+         "string in the receive buffer and every way it was segmented -- nothing happens before CRLFCRLF is present; a "
+         "complete header either opens the connection or drops it (never both, never neither); no exception escapes; "
+         "and whenever the connection is opened the response carried Upgrade: websocket, the Sec-WebSocket-Accept value "
+         "equal to base64(SHA1(own key + RFC 6455 GUID)), no subprotocol other than one the client requested, the "
+         "open-handshake timer is cancelled, onConnect is scheduled once and exactly the octets after the header are "
+         "kept for the frame decoder. Solver unknowns go to a replay of good / single-defect / undecodable responses "
+         "under several read boundaries on the real class.",
+    note="Trusted: z3, pyvc, SHA-1 / base64 uninterpreted, parseHttpHeader by an assumed contract, string functions "
+         "(strip, lower, split, format) as functions of their arguments with only length facts for split -- this proves "
+         "necessary conditions of acceptance and exception-freedom, not that every valid response is accepted. Not "
+         "covered (level 'other'): the server side (request validation chain, origin policy, connection limit, "
+         "succeedHandshake), request construction and URL parsing, responses with extensions (C12), library-to-library "
+         "interoperability.",
+    technique="contract-based deductive verification: AST->VC with over-approximated text functions, uninterpreted digest, z3"),
+})
+
+CLAIMED.update({
  "C04": dict(category="proof",
     text="IdGenerator.next stays in 1..2^53 and is sequential; every reply arm of ApplicationSession.onMessage "
          "(PUBLISHED, SUBSCRIBED, UNSUBSCRIBED, REGISTERED, UNREGISTERED, RESULT incl. progressive, ERROR keyed by request "
